@@ -172,24 +172,26 @@ Qed.
 
 (* what readRestOfWhitespaceLine consumes: blanks and a newline, or blanks up to the end *)
 Definition rest_line (s s' : state) : Prop :=
-  (exists W, slice t (off s) (off s') = W ++ [10] /\ Forall wsb W) \/
-  (cur s' = eof /\ Forall wsb (slice t (off s) (off s'))).
+  ((exists W, slice t (off s) (off s') = W ++ [10] /\ Forall wsb W) \/
+   (cur s' = eof /\ Forall wsb (slice t (off s) (off s')))) /\
+  (cur s <> eof -> off s < off s').
 
 Lemma read_rest_spec s : Inv s ->
   post (fun _ s' => rest_line s s') (off s) (read_rest_of_whitespace_line E s).
 Proof using All.
-  intros HI. pose proof (inv_facts s HI) as (H0 & _).
+  intros HI. pose proof (inv_facts s HI) as (H0 & _ & _ & _ & Hne).
   unfold read_rest_of_whitespace_line. apply post_annot; [prj; lia|].
   step rw_ws as ? s1 HI1 L1 Hw.
   unfold ifM, cur_is. destruct (Z.eqb_spec (cur s1) eof) as [Hc|Hc].
-  - apply post_ret_with; [assumption|lia|]. right. auto.
+  - apply post_ret_with; [assumption|lia|]. split; [right; auto|].
+    intros Hn. pose proof (inv_eof_len E Hlen Hfuel Hdec s1 HI1 Hc). specialize (Hne Hn). lia.
   - step rc_spec as ? s2 HI2 L2 (Ho & Hs). { lia. }
-    apply post_ret_with; [assumption|lia|]. left. exists (slice t (off s) (off s1)).
+    apply post_ret_with; [assumption|lia|]. split; [|intros; lia]. left. exists (slice t (off s) (off s1)).
     split; [|assumption]. rewrite (slice_app t (off s) (off s1) (off s2)) by lia. now rewrite Hs.
 Qed.
 
 Definition comment_text (s s' : state) : Prop :=
-  exists m body, slice t (off s) (off s') = m ++ body /\
+  off s < off s' /\ exists m body, slice t (off s) (off s') = m ++ body /\
                  In m [kw_star; kw_slashes; kw_hash] /\ Forall notnl body.
 
 Lemma read_comment_spec s : Inv s ->
@@ -201,7 +203,7 @@ Proof using All.
   { repeat constructor; unfold ascii; lia. }
   { repeat constructor; discriminate. }
   step rw_notnl as ? s2 HI2 L2 Hb.
-  apply post_ret_with; [assumption|lia|].
+  apply post_ret_with; [assumption|lia|]. split; [lia|].
   exists (slice t (off s) (off s1)), (slice t (off s1) (off s2)).
   split; [apply slice_app; lia|]. split; assumption.
 Qed.
@@ -803,4 +805,297 @@ Proof using All.
           rewrite str_eqb_refl in *; discriminate.
 Qed.
 
+(* ------------------------------------------------------------------ gaps *)
+
+Definition line_ok (f : bool) (l : str) : Prop := line_ok_b f l = true /\ Forall notnl l.
+
+(* gap_ok first_ws open_end g: g is a sequence of gap lines *)
+Inductive gap_ok : bool -> bool -> str -> Prop :=
+| gap_nil f o : gap_ok f o []
+| gap_open f l : line_ok f l -> gap_ok f true l
+| gap_line f o l g : line_ok f l -> gap_ok false o g -> gap_ok f o (l ++ 10 :: g).
+
+Lemma split_nl_nonnil g : split_nl g <> [].
+Proof using All.
+  induction g as [|b g IH]; cbn [split_nl]; [discriminate|].
+  destruct (b =? 10); [discriminate|]. destruct (split_nl g); [congruence|discriminate].
+Qed.
+
+Lemma split_nl_line l g : Forall notnl l -> split_nl (l ++ 10 :: g) = l :: split_nl g.
+Proof using All.
+  induction 1 as [|b l Hb Hl IH]; cbn [app split_nl].
+  - reflexivity.
+  - unfold notnl in Hb. destruct (Z.eqb_spec b 10); [contradiction|]. now rewrite IH.
+Qed.
+
+Lemma split_nl_open l : Forall notnl l -> split_nl l = [l].
+Proof using All.
+  induction 1 as [|b l Hb Hl IH]; cbn [split_nl]; [reflexivity|].
+  unfold notnl in Hb. destruct (Z.eqb_spec b 10); [contradiction|]. now rewrite IH.
+Qed.
+
+Lemma gap_ok_b_complete f o g : gap_ok f o g -> gap_ok_b f o g = true.
+Proof using All.
+  unfold gap_ok_b. induction 1 as [f o|f l (Hl & Hn)|f o l g (Hl & Hn) Hg IH].
+  - reflexivity.
+  - rewrite (split_nl_open l Hn). cbn [lines_ok_b]. destruct l; [reflexivity|]. now rewrite Hl.
+  - rewrite (split_nl_line l g Hn). pose proof (split_nl_nonnil g) as Hne.
+    destruct (split_nl g) as [|x xs]; [congruence|].
+    cbn [lines_ok_b] in *. rewrite Hl, IH. reflexivity.
+Qed.
+
+Fixpoint gaps (pos : Z) (after : bool) (ds : list directive) : Prop :=
+  match ds with
+  | [] => gap_ok after true (slice t pos len)
+  | d :: ds' =>
+    pos <= r_start (d_range d) /\ (after = true -> pos < r_start (d_range d)) /\
+    gap_ok after false (slice t pos (r_start (d_range d))) /\
+    gaps (r_end (d_range d)) true ds'
+  end.
+
+Lemma gaps_b_complete ds : forall pos after, gaps pos after ds -> gaps_b t pos after ds = true.
+Proof using All.
+  induction ds as [|d ds IH]; intros pos after H; cbn [gaps gaps_b] in *.
+  - unfold zlen. rewrite <- Hlen. now apply gap_ok_b_complete.
+  - destruct H as (H1 & H2 & H3 & H4).
+    rewrite (gap_ok_b_complete _ _ _ H3), (IH _ _ H4).
+    destruct after; [specialize (H2 eq_refl)|]; lia.
+Qed.
+
+Lemma wsb_notnl l : Forall wsb l -> Forall notnl l.
+Proof using All.
+  apply Forall_impl. unfold wsb, is_ws_byte, notnl. intros; lia.
+Qed.
+
+Lemma wsb_ws_only l : Forall wsb l -> ws_only l = true.
+Proof using All.
+  intros H. unfold ws_only. apply forallb_forall. rewrite Forall_forall in H. exact H.
+Qed.
+
+Lemma ws_only_wsb l : ws_only l = true -> Forall wsb l.
+Proof using All.
+  unfold ws_only. rewrite forallb_forall, Forall_forall. auto.
+Qed.
+
+(* a partial line X followed by blanks W is still a gap line *)
+Lemma line_ok_b_app f X W : line_ok_b f X = true -> Forall wsb W -> line_ok_b f (X ++ W) = true.
+Proof using All.
+  unfold line_ok_b. intros H HW.
+  destruct (ws_only X) eqn:Hx.
+  - assert (ws_only (X ++ W) = true).
+    { apply wsb_ws_only, Forall_app. split; [now apply ws_only_wsb|assumption]. }
+    lia.
+  - assert (Hc : negb f && is_comment_line X = true) by lia.
+    assert (is_comment_line (X ++ W) = true).
+    { destruct X as [|b [|c X']]; cbn [is_comment_line app] in *; [lia| |lia].
+      destruct W; lia. }
+    lia.
+Qed.
+
+Lemma gaps_extend a b f l ds :
+  0 <= a < b -> b <= len -> slice t a b = l ++ [10] -> line_ok f l ->
+  gaps b false ds -> gaps a f ds.
+Proof using All.
+  intros Hab Hb Hs Hl Hg. destruct ds as [|d ds]; cbn [gaps] in *.
+  - rewrite (slice_app t a b len) by lia. rewrite Hs, <- app_assoc. cbn [app].
+    now apply gap_line.
+  - destruct Hg as (H1 & _ & H3 & H4). split; [lia|]. split; [intros; lia|]. split; [|assumption].
+    rewrite (slice_app t a b (r_start (d_range d))) by lia. rewrite Hs, <- app_assoc. cbn [app].
+    now apply gap_line.
+Qed.
+
+(* ------------------------------------------------------------------ the file loop *)
+
+Definition loop_post (p0 : Z) (f : bool) (o : Z) (ds : list directive) (s' : state) : Prop :=
+  cur s' = eof /\ gaps p0 f ds /\
+  (forall lo, lo <= o -> ordered_in lo len (map d_range ds) = true) /\
+  forallb (wf_directive 0 len) ds = true.
+
+Lemma tail_spec n (od : option directive) p0 f s1 :
+  (forall s, Inv s -> len - off s < Z.of_nat n ->
+     post (loop_post (off s) false (off s)) (off s) (file_loop E n s)) ->
+  Inv s1 -> 0 <= p0 <= off s1 -> len - off s1 <= Z.of_nat n ->
+  Forall notnl (slice t p0 (off s1)) -> line_ok_b f (slice t p0 (off s1)) = true ->
+  post (fun r s' => exists ds, r = opt_cons od ds /\ loop_post p0 f (off s1) ds s') (off s1)
+    (ifM (cur_is eof) (ret (opt_cons od []))
+       (do _ <- read_rest_of_whitespace_line E; do ds <- file_loop E n; ret (opt_cons od ds)) s1).
+Proof using All.
+  intros IH HI1 Hp0 Hn HX1 HX2.
+  pose proof (inv_facts s1 HI1) as (H0 & Hc0 & Hle & _).
+  unfold ifM, cur_is. destruct (Z.eqb_spec (cur s1) eof) as [Hc|Hc].
+  - apply post_ret; [assumption|lia|]. exists []. split; [reflexivity|].
+    pose proof (inv_eof_len E Hlen Hfuel Hdec s1 HI1 Hc) as Hend.
+    unfold loop_post. cbn [gaps map ordered_in forallb]. rewrite <- Hend.
+    split; [assumption|]. split; [apply gap_open; split; assumption|]. split; [intros; lia|reflexivity].
+  - step read_rest_spec as ? s2 HI2 L2 (Hrl & Hprog). specialize (Hprog Hc).
+    pose proof (inv_facts s2 HI2) as (_ & Hc2 & Hle2 & _).
+    step IH as ds s3 HI3 L3 (Heof & Hg & Ho & Hw). { lia. }
+    apply post_ret; [assumption|lia|]. exists ds. split; [reflexivity|].
+    unfold loop_post. split; [assumption|]. split; [|split; [intros; apply Ho; lia|assumption]].
+    destruct Hrl as [(W & HsW & HW)|(Heof2 & HW)].
+    + apply (gaps_extend p0 (off s2) f (slice t p0 (off s1) ++ W)); try assumption; try lia.
+      * rewrite (slice_app t p0 (off s1) (off s2)) by lia. rewrite HsW. now rewrite app_assoc.
+      * split; [now apply line_ok_b_app|]. apply Forall_app. split; [assumption|now apply wsb_notnl].
+    + pose proof (inv_eof_len E Hlen Hfuel Hdec s2 HI2 Heof2) as Hend.
+      destruct ds as [|d ds].
+      * cbn [gaps]. rewrite (slice_app t p0 (off s1) len) by lia. rewrite <- Hend.
+        apply gap_open. split; [now apply line_ok_b_app|].
+        apply Forall_app. split; [assumption|now apply wsb_notnl].
+      * exfalso. cbn [gaps forallb] in Hg, Hw. destruct Hg as (G1 & _).
+        revert Hw. unfold wf_directive, rng_in, nonempty_range. lia.
+Qed.
+
+Lemma file_loop_spec : forall n s, Inv s -> len - off s < Z.of_nat n ->
+  post (loop_post (off s) false (off s)) (off s) (file_loop E n s).
+Proof using All.
+  induction n as [|n IH]; intros s HI Hn;
+    pose proof (inv_facts s HI) as (H0 & Hc0 & Hle & _); [lia|].
+  cbn [file_loop]. unfold ifM at 1. unfold cur_is at 1.
+  destruct (Z.eqb_spec (cur s) eof) as [Hc|Hc].
+  { apply post_ret; [assumption|lia|].
+    pose proof (inv_eof_len E Hlen Hfuel Hdec s HI Hc) as Hend.
+    unfold loop_post. cbn [gaps map ordered_in forallb]. rewrite Hend, slice_nil.
+    split; [assumption|]. split; [apply gap_nil|]. split; [intros; lia|reflexivity]. }
+  eapply post_bind with (Q1 := fun od s1 =>
+    match od with
+    | Some d => directive_spec s d s1
+    | None => (off s < off s1 \/ s1 = s) /\ Forall notnl (slice t (off s) (off s1)) /\
+              line_ok_b false (slice t (off s) (off s1)) = true
+    end); [|lia|].
+  { unfold ifM. destruct ((cur s =? 42) || (cur s =? 35) || (cur s =? 47)).
+    - step read_comment_spec as ? s1 HI1 L1 (Hlt & m & body & Hs & Hm & Hb).
+      apply post_ret; [assumption|lia|]. split; [now left|]. rewrite Hs.
+      assert (Hmn : Forall notnl m /\ is_comment_line (m ++ body) = true).
+      { destruct Hm as [<-|[<-|[<-|[]]]]; (split; [repeat constructor; unfold notnl; lia|reflexivity]). }
+      destruct Hmn as (Hmn & Hcl).
+      split; [apply Forall_app; split; assumption|]. unfold line_ok_b. rewrite Hcl. cbn [negb andb]. lia.
+    - destruct (is_alphanumeric E (cur s) || (cur s =? 64)).
+      + step parse_directive_spec as d s1 HI1 L1 Hd.
+        apply post_ret; [assumption|lia|]. exact Hd.
+      + apply post_ret; [assumption|lia|]. split; [now right|]. rewrite slice_nil.
+        split; [constructor|reflexivity]. }
+  intros od s1 HI1 L1 Hod.
+  pose proof (inv_facts s1 HI1) as (_ & Hc1 & Hle1 & _).
+  destruct od as [d|].
+  - destruct Hod as (Hdr & Hdlt & Hdw).
+    eapply post_weaken; [apply (tail_spec n (Some d) (off s1) true s1 IH HI1); try lia|lia|].
+    + rewrite slice_nil. constructor.
+    + rewrite slice_nil. reflexivity.
+    + intros r s' HI' L' (ds & -> & Heof & Hg & Ho & Hw). cbn [opt_cons].
+      unfold loop_post. cbn [gaps map ordered_in forallb]. rewrite Hdr. prj.
+      split; [assumption|]. split; [|split].
+      * split; [lia|]. split; [discriminate|]. rewrite slice_nil. split; [apply gap_nil|assumption].
+      * intros lo Hlo. rewrite (Ho (off s1)) by lia. lia.
+      * rewrite (Hdw 0 len) by lia. assumption.
+  - destruct Hod as (Hprog & HX1 & HX2).
+    eapply post_weaken; [apply (tail_spec n None (off s) false s1 IH HI1); try assumption; try lia|lia|].
+    + intros r s' HI' L' (ds & -> & Heof & Hg & Ho & Hw). cbn [opt_cons].
+      unfold loop_post. split; [assumption|]. split; [assumption|]. split; [|assumption].
+      intros lo Hlo. apply Ho. lia.
+Qed.
+
+(* ------------------------------------------------------------------ file, entry point *)
+
+Lemma strict_from_ordered hi : forall ds lo,
+  ordered_in lo hi (map d_range ds) = true -> forallb (wf_directive 0 hi) ds = true ->
+  strict_order_b (map d_range ds) = true.
+Proof using All.
+  induction ds as [|d ds IH]; intros lo Ho Hw; cbn [map strict_order_b ordered_in forallb] in *; [reflexivity|].
+  assert (H1 : ordered_in (r_end (d_range d)) hi (map d_range ds) = true) by lia.
+  assert (H2 : forallb (wf_directive 0 hi) ds = true) by lia.
+  rewrite (IH _ H1 H2).
+  assert (H3 : nonempty_range (d_range d) = true) by (revert Hw; unfold wf_directive; lia).
+  rewrite H3. destruct ds as [|d' ds]; cbn [map ordered_in] in *; lia.
+Qed.
+
+Lemma interleave_slice : forall ds pos, 0 <= pos ->
+  ordered_in pos len (map d_range ds) = true -> interleave_from t pos ds = slice t pos len.
+Proof using All.
+  induction ds as [|d ds IH]; intros pos Hp Ho; cbn [interleave_from map ordered_in] in *.
+  - unfold zlen. now rewrite <- Hlen.
+  - assert (H1 : ordered_in (r_end (d_range d)) len (map d_range ds) = true) by lia.
+    pose proof (ordered_in_bounds _ _ _ H1) as Hb.
+    assert (Hp2 : 0 <= r_end (d_range d)) by lia. rewrite (IH _ Hp2 H1).
+    rewrite (slice_app t pos (r_start (d_range d)) len) by lia.
+    rewrite (slice_app t (r_start (d_range d)) (r_end (d_range d)) len) by lia. reflexivity.
+Qed.
+
+Definition file_ok (f : file) : Prop :=
+  wf_tree_b t f = true /\ cover_b t f = true /\ interleave t f = t.
+
+Lemma parse_file_spec s : Inv s -> off s = 0 ->
+  post (fun f _ => file_ok f) 0 (parse_file E s).
+Proof using All.
+  intros HI Hs0. pose proof (inv_facts s HI) as (H0 & Hc0 & Hle & _).
+  unfold parse_file. rewrite <- Hs0. apply post_annot; [prj; lia|].
+  step file_loop_spec as ds s1 HI1 L1 (Heof & Hg & Ho & Hw).
+  { unfold loop_fuel. lia. }
+  apply post_ret_with; [assumption|lia|]. prj.
+  pose proof (inv_eof_len E Hlen Hfuel Hdec s1 HI1 Heof) as Hend.
+  assert (Hz : zlen t = len) by (unfold zlen; now rewrite Hlen).
+  unfold file_ok, wf_tree_b, cover_b, interleave, range_eqb. prj. rewrite Hz, Hs0, Hend in *.
+  pose proof (Ho 0 ltac:(lia)) as Ho0.
+  split; [|split].
+  - rewrite Ho0, Hw, (strict_from_ordered len ds 0 Ho0 Hw). lia.
+  - now apply gaps_b_complete.
+  - rewrite (interleave_slice ds 0) by (lia || assumption). rewrite <- Hz. apply slice_full.
+Qed.
+
+Lemma errs_ok_bounds e : errs_ok E e -> err_in_bounds_b t e = true.
+Proof using All.
+  intros H. unfold err_in_bounds_b. apply forallb_forall. intros x Hx.
+  unfold errs_ok in H. rewrite Forall_forall in H. specialize (H x Hx).
+  unfold err_ok in H. unfold zlen. rewrite <- Hlen. lia.
+Qed.
+
+Theorem parse_env_total :
+  match parse_env E with
+  | ParseOk f => file_ok f
+  | ParseErr e => err_in_bounds_b t e = true
+  | ParseFuel => False
+  end.
+Proof using All.
+  unfold parse_env. pose proof (advance_init E Hlen Hfuel Hdec) as Ha.
+  destruct (advance E (init_state E)) as [[] s|e s|]; cbn [ScannerProofs.post] in Ha.
+  - destruct Ha as (HI & _ & Ho).
+    pose proof (parse_file_spec s HI Ho) as Hf.
+    destruct (parse_file E s) as [f s'|e s'|]; cbn [ScannerProofs.post] in Hf.
+    + tauto.
+    + apply errs_ok_bounds. tauto.
+    + contradiction.
+  - apply errs_ok_bounds. tauto.
+  - contradiction.
+Qed.
+
 End WithEnv.
+
+(* ------------------------------------------------------------------ the concrete parser *)
+
+Lemma parse_text_total letter digit (t : str) :
+  match parse_text letter digit t with
+  | ParseOk f => wf_tree_b t f = true /\ cover_b t f = true /\ interleave t f = t
+  | ParseErr e => err_in_bounds_b t e = true
+  | ParseFuel => False
+  end.
+Proof.
+  unfold parse_text.
+  apply (parse_env_total (mk_env Utf8.decode letter digit t)).
+  - reflexivity.
+  - cbn [mk_env e_text e_fuel]. lia.
+  - apply utf8_decoder_ok.
+Qed.
+
+Lemma parse_text_fuel letter digit t : parse_text letter digit t <> ParseFuel.
+Proof. pose proof (parse_text_total letter digit t) as H. intros Hf. now rewrite Hf in H. Qed.
+
+Lemma parse_text_err_in_bounds letter digit t e :
+  parse_text letter digit t = ParseErr e -> err_in_bounds_b t e = true.
+Proof. pose proof (parse_text_total letter digit t) as H. intros Hf. now rewrite Hf in H. Qed.
+
+Lemma parse_text_wf letter digit t f :
+  parse_text letter digit t = ParseOk f -> wf_tree_b t f = true.
+Proof. pose proof (parse_text_total letter digit t) as H. intros Hf. rewrite Hf in H. tauto. Qed.
+
+Lemma parse_text_cover letter digit t f :
+  parse_text letter digit t = ParseOk f -> cover_b t f = true /\ interleave t f = t.
+Proof. pose proof (parse_text_total letter digit t) as H. intros Hf. rewrite Hf in H. tauto. Qed.
